@@ -239,6 +239,19 @@ def limit_cases():
     return out
 
 
+def literal_cases(rng, n_random):
+    """Malformed and borderline numeric literals in every channel (implementation only)."""
+    out = []
+    for k, t in enumerate(E.literal_shapes(rng, n_random)):
+        stmts = ["@print %s", "@assert %s == 1", "float64 X = %s", "uint8[%s] x", "uint8[<=%s] x", "uint8[<%s] x", "@print {%s, 1}", "@print -%s", "@print (%s).count"]
+        if k >= 60:
+            stmts = [stmts[0], rng.choice(stmts[1:])]
+        for st in stmts:
+            out.append(ns_case({"A.1.0.dsdl": (st % t) + "\n@sealed\n"}, "malformed-literal"))
+        out.append(ns_case({"A.1.0.dsdl": "uint8 x\n@extent %s\n" % t}, "malformed-literal"))
+    return out
+
+
 def control_cases():
     out = []
     ctrl = list(range(0, 32)) + [127, 0x85, 0xA0, 0x2028, 0x2029, 0xFEFF, 0x200B, 0xFFFF, 0x1F600, 0x0301]
@@ -256,7 +269,7 @@ def control_cases():
 def service_cases():
     out = []
     for stmt in ("@print Svc.1.0._extent_", "@print Svc.1.0._bit_length_", "@print Svc.1.0.REQ_CONST", "@assert Svc.1.0 == Svc.1.0", "Svc.1.0 f", "Svc.1.0[2] f",
-                 "Svc.1.0[<=2] f", "@print Svc.1.0", "@print Svc.1.0.Request", "@print {Svc.1.0}", "@print Svc.1.0 + 1", "uint8 X = Svc.1.0", "@extent Svc.1.0",
+                 "Svc.1.0[<=2] f", "@print Svc.1.0", "ns.Svc.1.0 x\n@print _offset_", "Svc.1.0 x\nuint8 y\n@assert _offset_.count == 1", "Svc.1.0[2] x\n@print _offset_", "@print Svc.1.0.Request", "@print {Svc.1.0}", "@print Svc.1.0 + 1", "uint8 X = Svc.1.0", "@extent Svc.1.0",
                  "@print ns.Svc.1.0._extent_", "@print Base.1.0._extent_", "@print Base.1.0.nope", "@print U.1.0._bit_length_ | {1}", "@print {Base.1.0, U.1.0}",
                  "@print {Base.1.0, Base.1.0}.count", "@print Base.1.0 == Base.1.0", "@print uint8 == uint8", "@print {uint8, int8}", "@print uint8.x", "@print -uint8",
                  "@print Base.1.0.VALUE.VALUE", "@assert Base.1.0", "uint8[Base.1.0] x", "uint8[Base.1.0.VALUE] x", "Base.1.0[Base.1.0.VALUE] x", "@print X.1.0",
@@ -383,7 +396,7 @@ def generate(rng, tier):
         streams.append(s)
 
     add(ns_case(dict(NS), "baseline"), "corpus")
-    for c in service_cases() + nesting_cases() + control_cases() + limit_cases():
+    for c in service_cases() + nesting_cases() + control_cases() + limit_cases() + literal_cases(rng, 100 if tier == "quick" else 2000):
         add(c, "targeted")
     for c in sibling_cases(rng, 80 if tier == "quick" else 2000):
         add(c, "targeted")
